@@ -393,6 +393,10 @@ def handshake_case(rng, B):
         if kind == "restart":
             for _ in range(rng.randint(1, 2)):
                 old = Attempt(rng, bssid, sta, pmk, ccmp, qos=False)
+                if rng.random() < 0.5:
+                    # the abandoned attempt and the real one use the SAME replay counter (an AP that restarts its counter
+                    # on re-association): the counter does not identify an attempt, the nonces do (seeded/C09e)
+                    old.replay = att.replay
                 upto = rng.choice([1, 2, 3])
                 for n in range(1, upto + 1):
                     seq += [(old.msg(n), None)] * dup()
